@@ -231,7 +231,11 @@ impl Property for C11 {
             }
         }
         // programs that sit on the widths of the bytecode format: accepted or refused, but alike
-        for (i, (name, src)) in crate::gen::limits::programs().into_iter().enumerate() {
+        let mut limit_programs = crate::gen::limits::programs();
+        if ctx.tier == Tier::Thorough {
+            limit_programs.extend(crate::gen::limits::huge_programs());
+        }
+        for (i, (name, src)) in limit_programs.into_iter().enumerate().rev() {
             if !ctx.shard_mine(i) {
                 continue;
             }
